@@ -876,7 +876,8 @@ sentinels / exclusive stop of `Annotation.get_location_range` (`annotRange`). -/
 theorem C13_gen_defaults :
     Gen.C13.defaults = Expected.defaults ∧ Gen.C13.rangeFacts = Expected.rangeFacts ∧
     Gen.C13.rangeFacts = ["-sys.maxsize", "sys.maxsize", "stop = last + 1"] ∧
-    (annotRange [] = (maxsize, -maxsize + 1)) := by decide
+    (annotRange [] = (maxsize, -maxsize + 1)) ∧
+    (annotRange [⟨0, 0, [⟨2 ^ 70, 2 ^ 70 + 3, .fwd, Defect.none⟩, ⟨-(2 ^ 65), 4, .rev, Defect.none⟩]⟩] = (-(2 ^ 65), 2 ^ 70 + 4)) := by decide
 
 /-! ## Non-vacuity -/
 
